@@ -580,6 +580,8 @@ func c07Edges(cfg Config, res *Result) {
 
 func suiteC07(cfg Config, res *Result) {
 	defer c07Debug(res)
+	defer bytesBelongToCaller(res, "semantics", "c07-bytes-owner")
+	defer globalsSnapshot(res, "semantics", "c07-globals-snapshot")
 	defer evalTrace(res, "semantics", "c07-evaluation-order")
 	defer c07ZeroDivisors(res)
 	defer routesAgree(res, "semantics", "c07-routes", []string{
